@@ -14,6 +14,8 @@ allocator objects are wrapped (instance attributes).
 
 import errno
 import struct
+import threading
+import time as _time
 
 from vf import osc, cmdref, model_cmds as mc
 from vf.common import short_tb, tb_sites
@@ -83,7 +85,16 @@ class Ledger:
 
 
 class Capture:
-    def __init__(self, mode, main):
+    MAX_DGRAM = 65504     # NetAddr's documented datagram bound (65507 for IPv4 UDP)
+
+    def __init__(self, mode, main, background=False):
+        """background=True: datagrams sent by other threads than the main one
+        (the status watcher's alive routine and its responders) are kept apart
+        from the workload's traffic and answered the way scsynth would:
+        /status -> /status.reply, /notify -> /done /notify id maxLogins."""
+        self.background = background
+        self.bg = []
+        self.bg_status = 0
         self.mode = mode
         self.main = main
         self.calls = []           # NRT: (n_elements,)   RT: (bytes, target)
@@ -108,6 +119,26 @@ class Capture:
                     self.faults_injected += 1
                     raise OSError(errno.EMSGSIZE, 'Message too long (injected)')
                 data = bytes(msg.dgram)
+                if self.background and \
+                        threading.current_thread() is not threading.main_thread():
+                    self.bg.append(data)
+                    try:
+                        for mm in cmdref.flatten(osc.decode(data)):
+                            if mm.addr == '/status':
+                                self.bg_status += 1
+                                itf._handle_request(osc.enc_msg(
+                                    '/status.reply', 1, 0, 0, 2, 0, 0.5, 1.0,
+                                    48000.0, 48000.0), target)
+                            elif mm.addr == '/notify' and mm.args:
+                                itf._handle_request(osc.enc_msg(
+                                    '/done', '/notify',
+                                    mm.args[1] if len(mm.args) > 1 else 0, 1), target)
+                            elif mm.addr == '/sync' and mm.args:
+                                itf._handle_request(
+                                    osc.enc_msg('/synced', mm.args[0]), target)
+                    except osc.OscError:
+                        pass
+                    return
                 self.calls.append((data, target))
                 # stand-in for the server: every '/sync id' is answered with
                 # '/synced id', fed through the interface's receive path
@@ -128,6 +159,7 @@ class Capture:
     def packets(self):
         """Decoded packets in emission order: [(packet, target)]."""
         if self.mode == 'rt':
+            self.sizes = [len(b) for b, t in self.calls]
             return [(osc.decode(b), t) for b, t in self.calls]
         score = self.main.process()
         raw = bytes(score.raw)
@@ -263,6 +295,9 @@ class Runner:
         m = self.m
         s = self.server
         k = op['op']
+        if k == 'hold':
+            _time.sleep(op['secs'])      # the block simply stays open
+            return
         if k == 'synth':
             args = self.real(op.get('args'))
             if op.get('args_as_tuple') and args is not None:
@@ -907,26 +942,70 @@ class Judge:
                                     rec['expect'].unordered, got=[])
                 self.check_ledger(rec)
             return
-        if len(got) != 1:
-            mech = ('block-sent-nothing' if not got else
-                    'block-split-into-several-bundles')
-            self.fail(f'C17/bind/{mech}', pseudo, n_packets=len(got),
-                      issued_messages=issued, got=[g.plain() for g, _ in got])
-        g, target = got[0]
-        self.check_target(pseudo if first is None else first, target)
-        if not isinstance(g, osc.Bundle):
-            self.fail('C17/bind/block-sent-as-plain-message', pseudo, got=g.plain())
-        msgs = list(g.elements)
-        if any(not isinstance(x, osc.Msg) for x in msgs):
-            self.fail('C17/bind/nested-bundle-in-block-bundle', pseudo, got=g.plain())
+        if not got:
+            self.fail('C17/bind/block-sent-nothing', pseudo, n_packets=0,
+                      issued_messages=issued)
+        sizes = getattr(self.r.cap, 'sizes', None)
+        gsizes = sizes[blk['call0']:blk['call1']] if sizes else None
+        for g, target in got:
+            self.check_target(pseudo if first is None else first, target)
+            if not isinstance(g, osc.Bundle):
+                self.fail('C17/bind/block-sent-as-plain-message', pseudo, got=g.plain())
+            if any(not isinstance(x, osc.Msg) for x in g.elements):
+                self.fail('C17/bind/nested-bundle-in-block-bundle', pseudo,
+                          got=_clip(g.plain()))
+        if len(got) > 1:
+            # several datagrams are only legitimate for a block that does not
+            # fit one datagram (the library's own size estimate is allowed 8 %
+            # of slack); each datagram must respect the documented bound
+            self.count('clumped_blocks_checked')
+            self.count('clumped_block_datagrams', len(got))
+            if gsizes is None:
+                self.fail('C17/bind/block-split-into-several-bundles', pseudo,
+                          n_packets=len(got), issued_messages=issued)
+            single = sum(gsizes) - 16 * (len(got) - 1)
+            if single <= 0.92 * Capture.MAX_DGRAM:
+                self.fail('C17/bind/block-split-into-several-bundles', pseudo,
+                          n_packets=len(got), issued_messages=issued,
+                          single_bundle_bytes=single,
+                          got=_clip([g.plain() for g, _ in got]))
+        if gsizes and max(gsizes) > Capture.MAX_DGRAM:
+            self.fail('C17/bind-clumped/datagram-larger-than-documented-bound', pseudo,
+                      sizes=gsizes[:20], bound=Capture.MAX_DGRAM)
+        msgs = [x for g, _ in got for x in g.elements]
+        whole = osc.Bundle(0, msgs)
         self.count('block_messages_compared', len(msgs))
         if len(msgs) != issued:
+            if len(got) > 1:
+                exp_all = [w for r in recs if r['raised'] is None
+                           for w in r['expect'].messages()]
+                self.fail('C17/bind-clumped/datagrams-do-not-add-up-to-issued-commands',
+                          pseudo, issued_messages=issued, on_wire=len(msgs),
+                          datagrams=len(got),
+                          per_datagram=[len(g.elements) for g, _ in got][:40],
+                          first_issued=mc.plain(exp_all[:3]),
+                          first_on_wire=[_show(x) for x in msgs[:3]])
             self.fail('C17/bind/bundle-size-differs-from-issued-messages', pseudo,
-                      issued_messages=issued, bundle=g.plain())
+                      issued_messages=issued, bundle=_clip(whole.plain()))
+        # every element must belong to an operation of the block
+        pos = 0
+        for rec in recs:
+            if rec['blk0'] != pos:
+                self.fail('C17/bind/foreign-command-captured-into-block-bundle', rec,
+                          foreign=[_show(x) for x in msgs[pos:rec['blk0']]][:10],
+                          where='between two operations of the block')
+            pos = rec['blk1']
         for rec in recs:
             seg = msgs[rec['blk0']:rec['blk1']]
+            if rec['op'].get('op') == 'hold':
+                self.count('blocks_held_open_checked')
+                if seg:
+                    self.fail('C17/bind/foreign-command-captured-into-block-bundle', rec,
+                              foreign=[_show(x) for x in seg][:10],
+                              where='while the block was held open')
+                continue
             wm = [] if rec['raised'] is not None else rec['expect'].messages()
-            self.match_block_segment(rec, wm, seg, rec['expect'].unordered, g)
+            self.match_block_segment(rec, wm, seg, rec['expect'].unordered, whole)
             for mm in seg:
                 self.check_message(rec, mm)
         for rec in recs:
@@ -1044,7 +1123,7 @@ class Judge:
 
     def match_block_segment(self, rec, wm, seg, unordered, g):
         try:
-            self.match_sequence(rec, wm, seg, unordered, got=[g.plain()])
+            self.match_sequence(rec, wm, seg, unordered, got=[_clip(g.plain())])
         except Violation as v:
             # inside a block a mismatch is either the method's fault or an
             # ordering fault of the bundle: tell them apart
@@ -1091,6 +1170,13 @@ class Judge:
         if used != expected_calls:
             raise Violation('C17/wire/packets-outside-any-operation',
                             {'packets': used, 'attributed': expected_calls})
+
+
+def _clip(plain, n=60):
+    """Keeps witnesses of very large blocks readable."""
+    if isinstance(plain, list) and len(plain) > n:
+        return plain[:n] + [f'... {len(plain) - n} more']
+    return plain
 
 
 def _unique(seq):
